@@ -375,7 +375,11 @@ def run_config(unit, cfgname, workdir, tier='quick', mutate=None, want_trace=Fal
         if 'trace' in r:
             ob['trace'] = r['trace']
         res.obligations.append(ob)
-    res.failed = [o for o in res.obligations if o['status'] != 'SUCCESS']
+    res.failed = [o for o in res.obligations if o['status'] == 'FAILURE']
+    res.unknown = [o for o in res.obligations if o['status'] not in ('SUCCESS', 'FAILURE')]
+    if res.unknown and not res.failed:
+        res.status, res.reason = 'inconclusive', '%d obligations left undetermined by cbmc (status %s)' % (len(res.unknown), res.unknown[0]['status'])
+        return res
     # tool-trouble filters
     if re.search(r'ignoring (forall|exists)', alltxt):
         res.status, res.reason = 'inconclusive', 'back end ignored a quantifier'
